@@ -12,6 +12,15 @@ BASE_NOTE = (
 
 # property -> (category, text, technique, design_ref, extra note)
 CLAIMS = {
+    "C16": (
+        "proof",
+        "Class-refinement contracts: for every method the engine calls on undefined values and each strict class (resolved through the MRO, with the real __getattribute__ executed), S.m either raises UndefinedError or returns what Undefined.m returns; "
+        "Undefined's own methods never raise. Two-run consumer contracts on is_truthy, _eq (both operand positions), _lt, _contains, default and size show that a strict run that returns gives the default run's result. "
+        "RenderContext uses env.undefined only as a constructor (structural). A bounded check renders 30 uses x 5 missing paths under all four undefined types.",
+        "contract-based deductive verification (refinement / two-run relational contracts over the real class hierarchy) + bounded contract check",
+        "DESIGN.md section 4 C16",
+        "FalsyStrictUndefined.__eq__ deliberately differs; shown unobservable at the verified consumers.",
+    ),
     "C12": (
         "proof",
         "The value-level kernels is_truthy, _eq, _lt, _contains, Nil/Empty/Blank.__eq__ and the evaluate methods of the comparison and and/or expression classes are verified, for all operand values of the tagged union "
